@@ -233,7 +233,11 @@ pub fn roundtrip_case(l: &mut Local, prop_site: &str, p: &Pkt, var: Variant) {
                 match via {
                     Err(pi) => l.subject_panic(&format!("{}:parse-as-compound:{}", prop_site, name), &pi, || format!("{} -> {}", p.short(), hex_short(&bytes))),
                     Ok(Err(m)) => l.violation(format!("{}:{}:not-the-same-through-Compound::parse", prop_site, name), || format!("{} -> {}", p.short(), hex_short(&bytes)), || m),
-                    Ok(Ok(())) => {}
+                    Ok(Ok(())) => {
+                        if prop_site == "roundtrip" && bytes.len() <= 4096 {
+                            roundtrip_in_context(l, prop_site, p, bytes);
+                        }
+                    }
                 }
             } else {
                 let f = diff_field(&o, &expected);
@@ -242,6 +246,220 @@ pub fn roundtrip_case(l: &mut Local, prop_site: &str, p: &Pkt, var: Variant) {
                     || format!("{} -> {}", p.short(), hex_short(&bytes)),
                     || format!("parsed view differs in {}: expected {} observed {}", f, expected.short(), o.short()),
                 );
+            }
+        }
+    }
+}
+
+/// A configuration of the same shape as `p` - same packet type, same SSRCs, same numbers of blocks / sources / chunks /
+/// items / entries - whose contents and sizes differ. Realised, sized, written and dropped immediately before `p` is
+/// realised again: anything the subject remembers outside the builder under a key that does not identify the whole
+/// configuration (an address the allocator hands out again, an SSRC, a count) then answers for the wrong builder.
+pub fn sibling(p: &Pkt) -> Pkt {
+    let other_pad = |pad: u8| if pad == 0 { 4 } else { 0 };
+    let rb = |b: &Rb| Rb { ssrc: b.ssrc, fraction: !b.fraction, cum: (b.cum ^ 0x5555) & 0xFF_FFFF, ext_seq: !b.ext_seq, jitter: b.jitter ^ 0x0F0F, lsr: !b.lsr, dlsr: b.dlsr.wrapping_add(1) };
+    match p {
+        Pkt::Sr { ssrc, ntp, rtp, pc, oc, blocks, pad } => Pkt::Sr { ssrc: *ssrc, ntp: !*ntp, rtp: rtp ^ 0xFF, pc: pc.wrapping_add(1), oc: !*oc, blocks: blocks.iter().map(rb).collect(), pad: other_pad(*pad) },
+        Pkt::Rr { ssrc, blocks, pad } => Pkt::Rr { ssrc: *ssrc, blocks: blocks.iter().map(rb).collect(), pad: other_pad(*pad) },
+        Pkt::Sdes { chunks, pad } => Pkt::Sdes {
+            chunks: chunks
+                .iter()
+                .map(|c| Chunk {
+                    ssrc: c.ssrc,
+                    items: c
+                        .items
+                        .iter()
+                        .map(|it| {
+                            let mut it = it.clone();
+                            let total = it.value.len() + if it.ty == 8 { it.prefix.len() + 1 } else { 0 };
+                            if total < 255 {
+                                it.value.push(b'x');
+                            } else if let Some(k) = (0..it.value.len()).rev().find(|k| std::str::from_utf8(&it.value[..*k]).is_ok()) {
+                                it.value.truncate(k);
+                            }
+                            it
+                        })
+                        .collect(),
+                })
+                .collect(),
+            pad: *pad,
+        },
+        Pkt::Bye { ssrcs, reason, pad } => {
+            let mut r = reason.clone();
+            if r.len() < 255 {
+                r.push('y');
+            } else {
+                r.pop();
+            }
+            Pkt::Bye { ssrcs: ssrcs.clone(), reason: r, pad: *pad }
+        }
+        Pkt::App { ssrc, subtype, name, data, pad } => {
+            let mut d = data.clone();
+            d.extend_from_slice(&[0x51, 0x52, 0x53, 0x54]);
+            Pkt::App { ssrc: *ssrc, subtype: subtype ^ 1, name: name.clone(), data: d, pad: *pad }
+        }
+        Pkt::Unknown { pt, count, data, pad } => {
+            let mut d = data.clone();
+            d.extend_from_slice(&[0x51, 0x52, 0x53, 0x54]);
+            Pkt::Unknown { pt: *pt, count: count ^ 1, data: d, pad: *pad }
+        }
+        Pkt::Fb { kind, sender, media, fci, pad } => {
+            let fci = match fci {
+                Fci::Nack(v) => Fci::Nack(v.iter().map(|s| s.wrapping_mul(2).wrapping_add(3)).collect()),
+                Fci::Fir(v) => Fci::Fir(v.iter().map(|(s, q)| (*s, q.wrapping_add(1))).collect()),
+                Fci::Sli(v) => Fci::Sli(v.iter().map(|(a, b, c)| (a ^ 1, b ^ 1, c ^ 1)).collect()),
+                Fci::Rpsi { pt, data, overrun } => {
+                    let mut d = data.clone();
+                    d.push(0x77);
+                    Fci::Rpsi { pt: pt ^ 1, data: d, overrun: *overrun }
+                }
+                Fci::Pli => Fci::Pli,
+            };
+            let pad = if matches!(fci, Fci::Pli) { other_pad(*pad) } else { *pad };
+            Pkt::Fb { kind: *kind, sender: *sender, media: *media, fci, pad }
+        }
+    }
+}
+
+/// Number of embedding contexts of `roundtrip_in_context`.
+pub const CONTEXTS: u64 = 10;
+
+/// The packet under test among other members, and its writer used more than once. `alone` holds the bytes the
+/// writer produced on its own (already read back and compared with the configuration by the caller); here the same
+/// configuration is realised once more and the one writer instance is
+///  (a) written into a buffer one byte too small (must fail and name the size), sized again, written into an exact and
+///      into a larger buffer: every successful write must give `alone` again;
+///  (b) added - by reference, so that one instance can stand in several places - to one of `CONTEXTS` member lists
+///      chosen by the case index: after / before decoy packets, inside a nested compound, twice or three times in one
+///      list, and in the arrangement `[D, P, Compound[P, D]]` where the members in front of a nested compound have
+///      the sizes of the nested members in another order. The bytes of the compound must be the concatenation of
+///      the decoys' reference images and `alone`, so the packet reads back as configured wherever it stands.
+pub fn roundtrip_in_context(l: &mut Local, site: &str, p: &Pkt, alone: &[u8]) {
+    use rtcp_types::{App, Bye, Compound, ReceiverReport};
+    let idx = l.cur_idx;
+    let h = idx ^ (idx >> 2) ^ (idx >> 5) ^ (idx >> 11) ^ (idx >> 17);
+    let ctx = h % CONTEXTS;
+    let padded = p.pad() != 0;
+    let d8 = Pkt::Bye { ssrcs: vec![0xC0DE_0001], reason: String::new(), pad: 0 };
+    let d8r = Pkt::Rr { ssrc: 0xC0DE_0002, blocks: vec![], pad: 0 };
+    let d12 = Pkt::App { ssrc: 0xC0DE_0003, subtype: 5, name: "ctx".into(), data: vec![], pad: 0 };
+    let (i8_, i8r, i12) = (refmodel::wire::encode(&d8), refmodel::wire::encode(&d8r), refmodel::wire::encode(&d12));
+    let mut verdict: Option<(String, String)> = None;
+    let var = Variant::new(idx % 2 == 1, build::Wrap::None);
+    let sib = sibling(p);
+    let r = guard::catch(|| {
+        // a sibling configuration lives its whole life first, in the same API flavour (same allocation pattern)
+        if alone.len() <= 1024 {
+            build::with_writer(&sib, var, &mut |w| {
+                if let Ok(m) = w.calculate_size() {
+                    let mut buf = crate::engine::place::OutBuf::new(m, |_| 0xA5);
+                    let _ = DynW(w).write_into(&mut buf);
+                }
+            });
+        }
+        build::with_writer(p, var, &mut |w| {
+            let n = alone.len();
+            // this instance's own first image: equal to `alone` (FIR entries as a multiset: two `FirBuilder` instances
+            // order their map differently, one instance keeps its order), and the reference for everything below
+            let mut first = crate::engine::place::OutBuf::new(n, |_| 0xA5);
+            let r0 = DynW(w).write_into(&mut first);
+            let mine: Vec<u8> = first.into_vec();
+            let canon = |b: &[u8]| -> Vec<u8> {
+                let mut v = b.to_vec();
+                if let Pkt::Fb { fci: Fci::Fir(e), .. } = p {
+                    let k = Fci::fir_map(e).len();
+                    if v.len() >= 12 + 8 * k {
+                        let mut es: Vec<[u8; 8]> = v[12..12 + 8 * k].chunks(8).map(|c| <[u8; 8]>::try_from(c).unwrap()).collect();
+                        es.sort();
+                        for (i, e) in es.iter().enumerate() {
+                            v[12 + 8 * i..20 + 8 * i].copy_from_slice(e);
+                        }
+                    }
+                }
+                v
+            };
+            if !matches!(r0, Ok(m) if m == n) || canon(&mine) != canon(alone) {
+                verdict = Some(("another-instance-differs".into(), format!("a second builder of the same configuration, made after a sibling of the same shape ({}) was built, written and dropped: write_into = {:?}, bytes equal: {}", sib.short(), r0, mine[..] == alone[..])));
+                return;
+            }
+            let alone: &[u8] = &mine;
+            // (a) the same writer used more than once
+            if n > 0 {
+                let mut small = crate::engine::place::OutBuf::new(n - 1, |_| 0x5A);
+                match DynW(w).write_into(&mut small) {
+                    Err(rtcp_types::RtcpWriteError::OutputTooSmall(m)) if m == n => {}
+                    other => {
+                        verdict = Some(("write-into-too-small-buffer".into(), format!("buffer of {} bytes: {:?}, the packet has {} bytes", n - 1, other, n)));
+                        return;
+                    }
+                }
+            }
+            for extra in [0usize, 8] {
+                match w.calculate_size() {
+                    Ok(m) if m == n => {}
+                    other => {
+                        verdict = Some(("size-changes-between-uses".into(), format!("calculate_size() = {:?} after earlier uses, {} before", other, n)));
+                        return;
+                    }
+                }
+                let mut buf = crate::engine::place::OutBuf::new(n + extra, |_| 0x3C);
+                match DynW(w).write_into(&mut buf) {
+                    Ok(m) if m == n && buf[..n] == alone[..] => {}
+                    other => {
+                        verdict = Some(("later-write-differs".into(), format!("write #{} of the same builder into {} bytes: {:?}, bytes equal: {}", extra / 8 + 2, n + extra, other, buf.len() >= n && buf[..n] == alone[..])));
+                        return;
+                    }
+                }
+            }
+            // (b) the packet among others
+            let b8 = || Bye::builder().add_source(0xC0DE_0001);
+            let b8r = || ReceiverReport::builder(0xC0DE_0002);
+            let b12 = || App::builder(0xC0DE_0003, "ctx").subtype(5);
+            let me = || DynW(w);
+            let (cb, parts): (rtcp_types::CompoundBuilder, Vec<&[u8]>) = match (ctx, padded) {
+                (0, _) => (Compound::builder().add_packet(b8()).add_packet(me()), vec![&i8_, alone]),
+                (1, false) => (Compound::builder().add_packet(me()).add_packet(b8()), vec![alone, &i8_]),
+                (1, true) => (Compound::builder().add_packet(b8()).add_packet(b12()).add_packet(me()), vec![&i8_, &i12, alone]),
+                (2, _) => (Compound::builder().add_packet(b8r()).add_packet(Compound::builder().add_packet(me())), vec![&i8r, alone]),
+                (3, _) => (Compound::builder().add_packet(Compound::builder().add_packet(b8()).add_packet(me())), vec![&i8_, alone]),
+                (4, false) => (Compound::builder().add_packet(b8()).add_packet(me()).add_packet(Compound::builder().add_packet(me()).add_packet(b8())), vec![&i8_, alone, alone, &i8_]),
+                (4, true) => (Compound::builder().add_packet(b8()).add_packet(b12()).add_packet(Compound::builder().add_packet(b12()).add_packet(b8())).add_packet(me()), vec![&i8_, &i12, &i12, &i8_, alone]),
+                (5, false) => (Compound::builder().add_packet(me()).add_packet(me()).add_packet(me()), vec![alone, alone, alone]),
+                (5, true) => (Compound::builder().add_packet(b8r()).add_packet(b8r()).add_packet(me()), vec![&i8r, &i8r, alone]),
+                (6, _) => (Compound::builder().add_packet(Compound::builder()).add_packet(Compound::builder().add_packet(Compound::builder().add_packet(b12()))).add_packet(me()), vec![&i12, alone]),
+                (7, false) => (Compound::builder().add_packet(me()).add_packet(b12()).add_packet(Compound::builder().add_packet(b12()).add_packet(me())).add_packet(b8()), vec![alone, &i12, &i12, alone, &i8_]),
+                (7, true) => (Compound::builder().add_packet(b12()).add_packet(Compound::builder().add_packet(b8()).add_packet(b12())).add_packet(me()), vec![&i12, &i8_, &i12, alone]),
+                (8, false) => (Compound::builder().add_packet(Compound::builder().add_packet(me()).add_packet(me())).add_packet(b8r()).add_packet(me()), vec![alone, alone, &i8r, alone]),
+                (8, true) => (Compound::builder().add_packet(Compound::builder().add_packet(b8r()).add_packet(b8())).add_packet(Compound::builder().add_packet(me())), vec![&i8r, &i8_, alone]),
+                (_, false) => (Compound::builder().add_packet(b12()).add_packet(b8()).add_packet(me()).add_packet(Compound::builder().add_packet(me()).add_packet(b8()).add_packet(b12())), vec![&i12, &i8_, alone, alone, &i8_, &i12]),
+                (_, true) => (Compound::builder().add_packet(b8()).add_packet(b8r()).add_packet(b12()).add_packet(Compound::builder().add_packet(b12()).add_packet(b8r()).add_packet(b8())).add_packet(me()), vec![&i8_, &i8r, &i12, &i12, &i8r, &i8_, alone]),
+            };
+            let want: Vec<u8> = parts.concat();
+            match cb.calculate_size() {
+                Ok(m) if m == want.len() => {
+                    let mut buf = crate::engine::place::OutBuf::new(m, |_| 0xA5);
+                    match DynW(&cb).write_into(&mut buf) {
+                        Ok(k) if k == m && buf[..] == want[..] => {}
+                        other => {
+                            let at = buf.iter().zip(want.iter()).position(|(a, b)| a != b);
+                            verdict = Some((format!("context-{}{}", ctx, if padded { "p" } else { "" }), format!("written among other members the bytes differ from the members' own images: write_into = {:?}, first difference at byte {:?} of {}", other, at, m)));
+                        }
+                    }
+                }
+                other => {
+                    verdict = Some((format!("context-{}{}", ctx, if padded { "p" } else { "" }), format!("calculate_size() of the compound = {:?}, the members have {} bytes", other, want.len())));
+                }
+            }
+        })
+    });
+    l.transitions += 5;
+    match r {
+        Err(pi) => l.subject_panic(&format!("{}-in-context:{}:context-{}", site, p.builder_name(), ctx), &pi, || p.short()),
+        Ok(()) => {
+            if let Some((k, m)) = verdict {
+                l.violation(format!("{}-in-context:{}:{}", site, p.builder_name(), k), || p.short(), || m);
+            } else {
+                l.hit("same-bytes-among-other-members-and-on-reuse");
             }
         }
     }
@@ -268,13 +486,15 @@ pub fn run_cfg_spaces(ctx: &mut Ctx, spaces: Vec<CfgSpace>, f: impl Fn(&Pkt, u64
 // Iterator call histories
 
 /// The operations of an iterator call history.
-const IT_OPS: [&str; 6] = ["next()", "nth(0)", "nth(1)", "nth(2)", "nth(7)", "by_ref().take(2).count()"];
+const IT_OPS: [&str; 8] = ["next()", "nth(0)", "nth(1)", "nth(2)", "nth(7)", "by_ref().take(2).count()", "size_hint()", "observe()"];
+/// The first six operations consume items; the last two are observations (the size hint; `{:?}` of the iterator where it has one, other values parsed and iterated meanwhile otherwise) that may come at any point of a history.
+const IT_CONSUMING: u64 = 6;
 /// How a history ends (on what is left of the iterator).
 const IT_ENDS: [&str; 10] = ["for-loop", "count()", "last()", "nth(remaining)", "collect::<Vec<_>>()", "fold()", "for_each()", "position(last)", "max_by_key(call index)", "skip(1).step_by(2)"];
 
 /// Number of (history, ending) pairs explored by `iterator_histories` for a given depth.
 pub fn iterator_history_count(depth: u32) -> u64 {
-    crate::engine::space::seq_count(IT_OPS.len() as u64, depth) * IT_ENDS.len() as u64
+    (crate::engine::space::seq_count(IT_CONSUMING, depth) + crate::engine::space::seq_count(IT_OPS.len() as u64, depth)) * IT_ENDS.len() as u64
 }
 
 /// All call histories of length <= `depth` over {next, nth(0), nth(1), nth(2), nth(7), by_ref().take(2).count()} on
@@ -289,14 +509,32 @@ where
     I: Iterator<Item = T>,
     T: std::fmt::Debug,
 {
+    iterator_histories_obs(l, site, mk, reference, depth, show, &|_| decoy_parse_all())
+}
+
+/// `iterator_histories` with the caller's own `observe()` operation (for an iterator that is `Debug`: its `{:?}`).
+/// Three passes: (0) the six consuming operations with a `size_hint()` after every call; (1) all eight operations, the
+/// observations only where the history puts them (a memo that the first observation fills is filled at every possible
+/// point of the iteration, not only at its start); (2) short histories with other values parsed and iterated
+/// between any two calls.
+pub fn iterator_histories_obs<I, T>(l: &mut Local, site: &str, mk: &dyn Fn() -> I, reference: &[u64], depth: u32, show: &dyn Fn() -> String, observe: &dyn Fn(&I))
+where
+    I: Iterator<Item = T>,
+    T: std::fmt::Debug,
+{
     use crate::engine::run::fp_debug;
     use crate::engine::space::{seq_count, seq_decode};
-    let nops = IT_OPS.len() as u64;
     let n = reference.len();
-    // second pass: the histories of length <= min(depth - 1, 2) again, with other values of every kind parsed and iterated to their
-    // end between any two calls (`decoy_parse_all`): two iterators alive at the same time on one thread
-    for (h, decoy) in (0..seq_count(nops, depth)).map(|h| (h, false)).chain((0..seq_count(nops, depth.saturating_sub(1).min(2))).map(|h| (h, true))) {
+    let all = IT_OPS.len() as u64;
+    let passes = (0..seq_count(IT_CONSUMING, depth)).map(|h| (h, IT_CONSUMING, false, true)).chain((0..seq_count(all, depth)).map(|h| (h, all, false, false))).chain((0..seq_count(IT_CONSUMING, depth.saturating_sub(1).min(2))).map(|h| (h, IT_CONSUMING, true, true)));
+    for (h, nops, decoy, auto_hint) in passes {
         let seq = seq_decode(nops, h);
+        if nops == all && seq.iter().all(|&op| op < IT_CONSUMING) && !seq.is_empty() {
+            // a history without observations: the plain one (no size hints at all) is kept only for the shortest forms
+            if seq.len() > 2 {
+                continue;
+            }
+        }
         for (ei, end) in IT_ENDS.iter().enumerate() {
             l.states += 1;
             let r = guard::catch(|| {
@@ -333,11 +571,21 @@ where
                             cur = (cur + skip + 1).min(n + 1);
                             (g, w)
                         }
-                        _ => {
+                        5 => {
                             let g = it.by_ref().take(2).count() as u64;
                             let w = (n - cur).min(2) as u64;
                             cur += 2;
                             (Some(g), Some(w))
+                        }
+                        6 => {
+                            // an observation: its answer is not judged (no property pins it), only that it returns and
+                            // leaves the iteration alone
+                            let _ = it.size_hint();
+                            (None, None)
+                        }
+                        _ => {
+                            observe(&it);
+                            (None, None)
                         }
                     };
                     if got != want {
@@ -347,7 +595,9 @@ where
                         return Ok(());
                     }
                     // asking for the size hint is an observation: it must return and leave the iterator alone
-                    let _ = it.size_hint();
+                    if auto_hint {
+                        let _ = it.size_hint();
+                    }
                     if decoy {
                         decoy_parse_all();
                     }
@@ -528,7 +778,9 @@ pub fn all_iterator_histories(l: &mut Local, bytes: &[u8], depth: u32) -> usize 
         let mut n = 0usize;
         if let Ok(c) = Compound::parse(bytes) {
             let reference = iterator_reference(c, bytes.len() / 4 + 3);
-            iterator_histories(l, "Compound", &|| Compound::parse(bytes).expect("parsed a moment ago"), &reference, depth, &show);
+            iterator_histories_obs(l, "Compound", &|| Compound::parse(bytes).expect("parsed a moment ago"), &reference, depth, &show, &|c| {
+                let _ = crate::engine::run::fp_debug(c);
+            });
             n += 1;
             if let Ok(c) = Compound::parse(bytes) {
                 for p in c.take(bytes.len() / 4 + 3).flatten() {
@@ -552,7 +804,7 @@ pub fn all_iterator_histories(l: &mut Local, bytes: &[u8], depth: u32) -> usize 
 /// through the space): the round-trip properties speak of "the same blocks / chunks / entries in the same order",
 /// which must hold however the iterators are driven.
 pub fn roundtrip_iterator_histories(ctx: &mut Ctx, spaces: Vec<CfgSpace>, per_space: u64, depth: u32) {
-    ctx.bound("iterator histories", format!("about {} built packets per configuration space: every iterator of the parsed packet driven through all call sequences of length <= {} over {{next, nth(0), nth(1), nth(2), nth(7), take(2).count()}} x 10 endings, size_hint() after every call", per_space, depth));
+    ctx.bound("iterator histories", format!("about {} built packets per configuration space: every iterator of the parsed packet driven through all call sequences of length <= {} over {{next, nth(0), nth(1), nth(2), nth(7), take(2).count()}} x 10 endings with size_hint() after every call, and over those plus {{size_hint(), observe()}} placed by the history", per_space, depth));
     for sp in spaces {
         let stride = (sp.len / per_space).max(1);
         let n = sp.len / stride;
